@@ -113,10 +113,8 @@ Definition wf_pd (d : pd) : Prop := match fst d with Some dn => wf_name dn | Non
 
 Definition pdims (seq : nat) (name : chars) (dims : list chars) (shape : list nat) : list pd :=
   let sh := skipn seq shape in
-  match dims with
-  | _ :: _ => map (fun p => (Some (fst p), snd p)) (combine (map quote dims) sh)
-  | [] => match sh with [n] => [(Some name, n)] | _ => map (fun n => (None, n)) sh end
-  end.
+  if dims_cover dims sh then map (fun p => (Some (fst p), snd p)) (combine (map quote dims) sh)
+  else match sh with [n] => [(Some name, n)] | _ => map (fun n => (None, n)) sh end.
 
 Lemma flat_map_map {A B C} (g : A -> B) (f : B -> list C) l : flat_map f (map g l) = flat_map (fun x => f (g x)) l.
 Proof. induction l as [|x l IH]; [reflexivity|]. cbn [map flat_map]. rewrite IH. reflexivity. Qed.
@@ -124,12 +122,12 @@ Proof. induction l as [|x l IH]; [reflexivity|]. cbn [map flat_map]. rewrite IH.
 Lemma print_dims_pd seq name dims shape :
   print_dims seq name dims shape = flat_map render_pd (pdims seq name dims shape).
 Proof.
-  unfold print_dims, pdims. destruct dims as [|d0 dims].
+  unfold print_dims, pdims. destruct (dims_cover dims (skipn seq shape)).
+  - rewrite flat_map_map. apply flat_map_ext. intros [a b]. reflexivity.
   - destruct (skipn seq shape) as [|n [|m sh]].
     + reflexivity.
     + cbn [flat_map render_pd]. rewrite app_nil_r. reflexivity.
     + rewrite flat_map_map. reflexivity.
-  - rewrite flat_map_map. apply flat_map_ext. intros [a b]. reflexivity.
 Qed.
 
 Lemma peek_lit_cons a b X : peek_lit [a] (b :: X) = Ascii.eqb (lower a) (lower b).
@@ -266,16 +264,16 @@ End Ind.
 Lemma wf_pdims seq n dims shape :
   wf_nameb n = true -> forallb wf_dimb dims = true -> Forall wf_pd (pdims seq n dims shape).
 Proof.
-  intros Hn Hd. unfold pdims. destruct dims as [|d0 dims].
-  - destruct (skipn seq shape) as [|m [|m' sh]].
-    + constructor.
-    + constructor; [|constructor]. apply wf_nameb_spec, Hn.
-    + apply Forall_forall. intros x Hx. apply in_map_iff in Hx as (y & <- & _). exact I.
+  intros Hn Hd. unfold pdims. destruct (dims_cover dims (skipn seq shape)).
   - apply Forall_forall. intros x Hx. apply in_map_iff in Hx as ([a b] & <- & Hin).
     apply in_combine_l in Hin. apply in_map_iff in Hin as (d & <- & Hdin).
     rewrite forallb_forall in Hd. specialize (Hd d Hdin). unfold wf_dimb in Hd.
     apply andb_true_iff in Hd as [H1 H2]. unfold wf_pd. cbn [fst]. split; [|exact H2].
     apply quote_nonempty. destruct d; [discriminate|discriminate].
+  - destruct (skipn seq shape) as [|m [|m' sh]].
+    + constructor.
+    + constructor; [|constructor]. apply wf_nameb_spec, Hn.
+    + apply Forall_forall. intros x Hx. apply in_map_iff in Hx as (y & <- & _). exact I.
 Qed.
 
 (* ------------------------------------------------------------------ one base declaration *)
@@ -570,34 +568,50 @@ Proof. destruct ty; reflexivity. Qed.
 Lemma skipn_short {A} n (l : list A) : List.length l <= n -> skipn n l = [].
 Proof. revert l; induction n as [|n IH]; intros [|x l] H; cbn in *; try reflexivity; try lia. apply IH. lia. Qed.
 
+Lemma pd_names_anon (l : list nat) : flat_map pd_names (map (fun n0 : nat => (@None chars, n0)) l) = [].
+Proof. induction l as [|x l IH]; [reflexivity|]. cbn [map flat_map pd_names fst app]. exact IH. Qed.
+
+Lemma pd_names_named (z : list (chars * nat)) :
+  flat_map pd_names (map (fun p : chars * nat => (Some (fst p), snd p)) z) = map fst z.
+Proof. induction z as [|[a b] z IH]; [reflexivity|]. cbn [map flat_map pd_names fst snd app]. rewrite IH. reflexivity. Qed.
+
+Lemma dims_cover_spec dims sh : dims_cover dims sh = true <-> dims <> [] /\ List.length dims = List.length sh.
+Proof.
+  unfold dims_cover. destruct dims as [|d0 dims].
+  - split; [discriminate|intros [H _]; congruence].
+  - rewrite Nat.eqb_eq. split; [intros H; split; [discriminate|exact H]|intros [_ H]; exact H].
+Qed.
+
+(* printing what the text declares prints the same text (dims that do not cover the shape are dropped by the first print) *)
 Lemma print_dims_declared seq n dims shape :
   forallb legal n = true -> (seq = 0 \/ List.length shape <= seq) ->
   let p := pdims seq n dims shape in
   print_dims seq n (flat_map pd_names p) (map snd p) = print_dims seq n dims shape.
 Proof.
   intros Hn [-> | Hs]; cbn zeta.
-  - unfold pdims, print_dims. cbn [skipn]. destruct dims as [|d0 dims].
-    + destruct shape as [|m [|m' sh]].
-      * reflexivity.
-      * cbn [flat_map pd_names fst snd map app combine]. rewrite (quote_fix n Hn). cbn [flat_map]. apply app_nil_r.
-      * rewrite map_map. cbn [snd]. rewrite map_id.
-        replace (flat_map pd_names (map (fun n0 : nat => (@None chars, n0)) (m :: m' :: sh))) with (@nil chars).
-        { reflexivity. }
-        generalize (m :: m' :: sh). intros l. induction l as [|x l IH]; [reflexivity|]. cbn [map flat_map pd_names fst app]. exact IH.
-    + set (z := combine (map quote (d0 :: dims)) shape).
+  - unfold pdims, print_dims. cbn [skipn]. destruct (dims_cover dims shape) eqn:Hc.
+    + apply dims_cover_spec in Hc as [Hne Hlen].
+      set (z := combine (map quote dims) shape).
       assert (Hq : map quote (map fst z) = map fst z).
       { rewrite <- (map_id (map fst z)) at 2. apply map_ext_in. intros a Ha.
         apply in_map_iff in Ha as ([a' b] & <- & Hin). apply in_combine_l in Hin.
         apply in_map_iff in Hin as (d & <- & _). apply quote_idempotent. }
-      rewrite map_map. cbn [snd].
-      assert (Hd : flat_map pd_names (map (fun p : chars * nat => (Some (fst p), snd p)) z) = map fst z).
-      { clear. induction z as [|[a b] z IH]; [reflexivity|]. cbn [map flat_map pd_names fst snd app]. rewrite IH. reflexivity. }
-      rewrite Hd. destruct (map fst z) eqn:Ez.
-      * destruct z; [reflexivity|discriminate].
-      * rewrite Hq, <- Ez, combine_fst_snd. reflexivity.
-  - unfold pdims, print_dims. rewrite (skipn_short seq shape Hs). destruct dims as [|d0 dims].
-    + cbn [map flat_map]. rewrite skipn_nil. reflexivity.
-    + rewrite combine_nil. cbn [map flat_map]. rewrite skipn_nil. reflexivity.
+      rewrite map_map. cbn [snd]. rewrite pd_names_named.
+      assert (Hz : List.length z = List.length shape).
+      { unfold z. rewrite combine_length, map_length. lia. }
+      assert (Hc2 : dims_cover (map fst z) (map (fun x : chars * nat => snd x) z) = true).
+      { apply dims_cover_spec. split.
+        - destruct z as [|? ?]; [|discriminate]. cbn in Hz. destruct dims; [congruence|]. destruct shape; cbn in *; lia.
+        - rewrite !map_length. reflexivity. }
+      rewrite Hc2, Hq. change (map (fun x : chars * nat => snd x) z) with (map snd z). rewrite combine_fst_snd. reflexivity.
+    + destruct shape as [|m [|m' sh]].
+      * reflexivity.
+      * cbn [flat_map pd_names fst snd map app combine dims_cover List.length Nat.eqb]. rewrite (quote_fix n Hn).
+        cbn [flat_map]. apply app_nil_r.
+      * rewrite map_map. cbn [snd]. rewrite map_id, pd_names_anon. reflexivity.
+  - unfold pdims, print_dims. rewrite (skipn_short seq shape Hs).
+    assert (Hc : dims_cover dims [] = false) by (destruct dims; reflexivity).
+    rewrite Hc. cbn [map flat_map]. rewrite skipn_nil. reflexivity.
 Qed.
 
 Lemma flat_map_declared (pr : dtree -> chars) (d : dtree -> dtree) ks :
@@ -645,23 +659,44 @@ Proof.
 Qed.
 
 (* ------------------------------------------------------------------ reading `declared` *)
-Lemma declared_base_named seq ty n d0 dims shape :
-  let z := combine (map quote (d0 :: dims)) (skipn seq shape) in
-  declared seq (TBase ty n (d0 :: dims) shape) = TBase ty n (map fst z) (map snd z).
+Lemma declared_base_named seq ty n dims shape :
+  dims <> [] -> List.length dims = List.length (skipn seq shape) ->
+  let z := combine (map quote dims) (skipn seq shape) in
+  declared seq (TBase ty n dims shape) = TBase ty n (map fst z) (map snd z).
 Proof.
-  cbn zeta. cbn [declared]. unfold pdims. set (z := combine _ _). f_equal.
-  - clear. induction z as [|[a b] z IH]; [reflexivity|]. cbn [map flat_map pd_names fst snd app]. rewrite IH. reflexivity.
+  intros Hne Hl. cbn zeta. cbn [declared]. unfold pdims.
+  assert (Hc : dims_cover dims (skipn seq shape) = true) by (apply dims_cover_spec; split; assumption).
+  rewrite Hc. set (z := combine _ _). f_equal.
+  - apply pd_names_named.
   - rewrite map_map. reflexivity.
 Qed.
-Lemma declared_base_rank1 seq ty n shape m :
-  skipn seq shape = [m] -> declared seq (TBase ty n [] shape) = TBase ty n [n] [m].
-Proof. intros E. cbn [declared]. unfold pdims. rewrite E. reflexivity. Qed.
-Lemma declared_base_anon seq ty n shape :
-  List.length (skipn seq shape) <> 1 -> declared seq (TBase ty n [] shape) = TBase ty n [] (skipn seq shape).
+Lemma declared_base_rank1 seq ty n dims shape m :
+  dims_cover dims (skipn seq shape) = false ->
+  skipn seq shape = [m] -> declared seq (TBase ty n dims shape) = TBase ty n [n] [m].
+Proof. intros Hc E. cbn [declared]. unfold pdims. rewrite Hc, E. reflexivity. Qed.
+Lemma declared_base_anon seq ty n dims shape :
+  dims_cover dims (skipn seq shape) = false ->
+  List.length (skipn seq shape) <> 1 -> declared seq (TBase ty n dims shape) = TBase ty n [] (skipn seq shape).
 Proof.
-  intros E. cbn [declared]. unfold pdims. destruct (skipn seq shape) as [|m [|m' sh]]; [reflexivity|cbn in E; lia|].
-  rewrite map_map. cbn [snd]. rewrite map_id. f_equal.
-  generalize (m :: m' :: sh). intros l. induction l as [|x l IH]; [reflexivity|]. cbn [map flat_map pd_names fst app]. exact IH.
+  intros Hc E. cbn [declared]. unfold pdims. rewrite Hc. destruct (skipn seq shape) as [|m [|m' sh]]; [reflexivity|cbn in E; lia|].
+  rewrite map_map. cbn [snd]. rewrite map_id. f_equal. apply pd_names_anon.
+Qed.
+Lemma map_snd_combine' {A B} (a : list A) (b : list B) : List.length a = List.length b -> map snd (combine a b) = b.
+Proof. revert b; induction a as [|x a IH]; intros [|y b] H; cbn in *; try reflexivity; try lia. f_equal. apply IH. lia. Qed.
+(* whatever the dimension names: the text declares the WHOLE shape below the enclosing Sequences *)
+Lemma declared_shape_whole seq ty n dims shape :
+  exists dims', declared seq (TBase ty n dims shape) = TBase ty n dims' (skipn seq shape) /\
+                (dims' = [] \/ List.length dims' = List.length (skipn seq shape)).
+Proof.
+  cbn [declared]. unfold pdims. destruct (dims_cover dims (skipn seq shape)) eqn:Hc.
+  - apply dims_cover_spec in Hc as [_ Hl]. eexists; split; [f_equal|].
+    + rewrite map_map. cbn [snd]. change (fun x : chars * nat => snd x) with (@snd chars nat).
+      rewrite map_snd_combine'; [reflexivity | rewrite map_length; lia].
+    + right. rewrite pd_names_named, map_length, combine_length, map_length. lia.
+  - destruct (skipn seq shape) as [|m [|m' sh]].
+    + exists []. split; [reflexivity|left; reflexivity].
+    + exists [n]. split; [reflexivity|right; reflexivity].
+    + exists []. split; [|left; reflexivity]. f_equal; [apply pd_names_anon|]. rewrite map_map. cbn [snd]. apply map_id.
 Qed.
 
 (* every pydap name is in quoted form: quoting makes a name well-formed for the DDS *)
